@@ -5,10 +5,10 @@ from .c03 import BMRoles, MuxRoles, mux_view, BM, MUX
 XBAR = ("litedram.core.crossbar", "LiteDRAMCrossbar")
 
 
-def xbar_view(ctx, nbanks=2, nmasters=2):
+def xbar_view(ctx, nbanks=2, nmasters=2, modes=None):
     return elab(ctx, *XBAR, overrides={"controller.nbanks": Const(nbanks), "controller.nranks": Const(1), "self.finalized": Const(False),
                                        "controller.settings.address_mapping": Const("ROW_BANK_COL")},
-                calls=tuple(("get_port", (), {}) for _ in range(nmasters)) + (("do_finalize", (), {}),))
+                calls=tuple(("get_port", (), ({"mode": Const(modes[i])} if modes else {})) for i in range(nmasters)) + (("do_finalize", (), {}),))
 
 
 def bank_queue(ctx):
@@ -151,11 +151,17 @@ def routing(ctx):
                          "that drive master.wdata.ready, arm 2**nm takes master nm's data/we, the default arm drives we = 0; read data is "
                          "broadcast from controller.rdata; in the multiplexer the DFI mask is ~wdata_we and wrdata/rddata use the same phase "
                          "order; the bundled model writes bytes where ~mask", 5)
-    for nb, nm_ in ((2, 2),) if ctx.tier == "quick" else ((2, 2), (4, 3)):
-        x = xbar_view(ctx, nb, nm_)
+    # structural valuations: all ports read/write, and a mixed one (read-only port FIRST, then write-capable ones): a design may legitimately leave
+    # read-only ports out of the write multiplexer, but then arm j must still belong to the master whose strobe is bit j of the selector
+    vals_ = (((2, 2), None), ((2, 3), ("read", "both", "write"))) if ctx.tier == "quick" else (((2, 2), None), ((4, 3), None), ((2, 3), ("read", "both", "write")), ((2, 3), ("write", "read", "both")))
+    for (nb, nm_), modes in vals_:
+        x = xbar_view(ctx, nb, nm_, modes)
         ports = [r for n_, r in x.top.meta.get("results", []) if n_ == "get_port"]
         pk = [key(p) for p in ports]
-        readys = [x.drivers(k + ".wdata.ready")[0].value for k in pk if x.drivers(k + ".wdata.ready")]
+        if not ob.need(len(pk) == nm_, "crossbar.get_port did not return %d ports" % nm_):
+            continue
+        readys = [x.drivers(k + ".wdata.ready")[0].value if x.drivers(k + ".wdata.ready") else None for k in pk]
+        owner = {key(r): k for r, k in zip(readys, pk) if r is not None}
         for tgt, fld in (("controller.wdata", "data"), ("controller.wdata_we", "we")):
             ds = x.drivers(tgt)
             arms = {}
@@ -166,17 +172,29 @@ def routing(ctx):
                     continue
                 sel, k = cs[0].args
                 arms[k.v if isinstance(k, Const) else str(k)] = (sel, d)
-            ob.instance("banks=%d masters=%d: %s arms" % (nb, nm_, tgt), {str(k): key(d.value) for k, (s_, d) in arms.items()})
+            ob.instance("banks=%d masters=%d modes=%s: %s arms" % (nb, nm_, modes or "both", tgt), {str(k): key(d.value) for k, (s_, d) in arms.items()})
+            served = set()
+            for k, (sel, d) in sorted(arms.items(), key=lambda kv: str(kv[0])):
+                if k == "default":
+                    continue
+                sargs = list(sel.args) if isinstance(sel, Op) and sel.op == "Cat" else [sel]
+                j = k.bit_length() - 1 if isinstance(k, int) and k > 0 and (k & (k - 1)) == 0 else None
+                if j is None or j >= len(sargs):
+                    ob.refute("wdata-arm-key:%s:%s/%d" % (fld, k, nm_), "%s arm key %s is not a one-hot value of the %d-bit selector %s" % (tgt, k, len(sargs), key(sel)[:160]), d.loc)
+                    continue
+                own = owner.get(key(sargs[j]))
+                if own is None:
+                    ob.refute("wdata-sel:%s/%d" % (fld, nm_), "bit %d of the write-data selector is %s, which is not the delayed wdata.ready strobe of any master" %
+                              (j, key(sargs[j])[:160]), d.loc)
+                    continue
+                served.add(own)
+                if key(d.value) != "%s.wdata.%s" % (own, fld):
+                    ob.refute("wdata-arm:%s:%d/%d" % (fld, pk.index(own), nm_), "modes=%s: %s arm %s is selected when master %d (%s) is given its write-data strobe (selector bit %d) but "
+                              "takes %s: that master's write stores another port's data / byte enables" % (modes or "both", tgt, k, pk.index(own), own, j, key(d.value)), d.loc)
             for i, p in enumerate(pk):
-                a = arms.get(2 ** i)
-                if a is None or key(a[1].value) != "%s.wdata.%s" % (p, fld):
-                    ob.refute("wdata-arm:%s:%d/%d" % (fld, i, nm_), "%s arm for master %d (key %d) is %s, expected %s.wdata.%s" %
-                              (tgt, i, 2 ** i, key(a[1].value) if a else None, p, fld), a[1].loc if a else None)
-                if a is not None:
-                    sel = a[0]
-                    if not (isinstance(sel, Op) and sel.op == "Cat" and [key(z) for z in sel.args] == [key(z) for z in readys]):
-                        ob.refute("wdata-sel:%s/%d" % (fld, nm_), "the write-data Case is selected by %s, not by the Cat of the masters' delayed "
-                                  "wdata.ready strobes" % key(sel)[:200], a[1].loc)
+                if p not in served and (modes is None or modes[i] != "read"):
+                    ob.refute("wdata-arm:%s:%d/%d" % (fld, i, nm_), "modes=%s: write-capable master %d (%s) has no arm in the %s multiplexer: its writes are dropped" %
+                              (modes or "both", i, p, tgt), ds[0].loc if ds else None)
             dflt = arms.get("default")
             if fld == "we" and (dflt is None or not is0(dflt[1].value)):
                 ob.refute("wdata-default-we", "the default arm does not drive wdata_we = 0 (bytes would be written when no master is selected)",
